@@ -553,6 +553,29 @@ def scripted(big=False):
                         O('close_dir', d='d0'), O('close_volume', v='v0')]
     add('S23-G16h', img, ops, img[1])
 
+    # S24: stale entries BEHIND the end-of-directory marker, in a later block (a medium that is not well-formed on purpose:
+    # judged for results only): the directory ends at the marker for listing and for lookup alike
+    for gname in ['G16a', 'G32a', 'G16c']:
+        v, upc, bounds = geom(gname, tree='T0', nfree=3)
+        ghosts = [dict(t='raw', hex='00' * 32) for _ in range(15)] + [f('GHOST.TXT', [3 if gname != 'G32a' else 4], 1)]
+        if v['fat32'] or gname == 'G16c':
+            # a sub-directory: (two dots +) one file, the rest of its first block empty, a ghost at the start of the next block / cluster
+            sub = [f('A.TXT', [], 0)] + [dict(t='raw', hex='00' * 32) for _ in range(13)] + [f('GHOST.TXT', [6], 1)]
+            chain = [8, 9] if v['bpc'] == 1 else [8]
+            v['root'] = [d('SUB', chain, sub), f('B.TXT', [], 0)]
+            v['window'] = sorted(set(v['window'] + [6] + chain))
+            dirname = 'SUB'
+        else:
+            v['root'] = [f('A.TXT', [2], 1)] + ghosts
+            v['window'] = sorted(set(v['window'] + [2, 3]))
+            dirname = None
+        ops = prologue() + ([O('open_dir', d='d0', name='SUB', as_='d1')] if dirname else [])
+        dd = 'd1' if dirname else 'd0'
+        ops += [O('iterate', d=dd), O('find', d=dd, name='GHOST.TXT'), O('find', d=dd, name='A.TXT'), O('open_file', d=dd, name='GHOST.TXT', mode='ReadOnly', as_='f0'),
+                O('delete', d=dd, name='GHOST.TXT'), O('open_dir', d=dd, name='GHOST.TXT', as_='dx'), O('iterate_lfn', d=dd)]
+        ops += ([O('close_dir', d='d1')] if dirname else []) + [O('close_dir', d='d0'), O('close_volume', v='v0')]
+        add('S24-' + gname, (dict(vols=[v]), upc, bounds), ops, upc, chk='listing')
+
     # S7: several volumes at once
     img = image_multi()
     upc = img[1]
